@@ -14,7 +14,9 @@ RULE = ("cases = one program per toggle (13 use modes, 9 purge modes, 9 names x 
         "1..8 methods with 0..6 locals per method, every local with an independent use mode (never / once / only after a dot / inner member of a "
         "dot chain / nested blocks / other method only / other letter case / for counter / string literal / receiver / argument / index / "
         "expression), each followed by a method permutation, a consistent renaming of all locals and a re-casing of all uses; "
-        "distinct_nontrivial = distinct implementation outputs with at least one item")
+        "+ the discrepancy probes of corpus/<id>/probes.txt + grammar-wide token programs (vlib/gen/prog.py: every construct, token-level "
+        "mutations, names colliding with the rule names) on which the real parser + analyzers are compared with the model and, wherever the "
+        "guards of the theorems hold, with the specification; distinct_nontrivial = distinct implementation outputs with at least one item")
 
 
 def run(ctx):
